@@ -1,8 +1,72 @@
-(* C15 -- {pep440_version} always denotes the same version as {version}. (theorems are added as they are proved) *)
-From Coq Require Import List NArith.
-From BV Require Import Lib.PyStr Model.V2 Model.Pep440.
+(* C15 -- {pep440_version} always denotes the same version as {version}: the pattern side.
+   Proofs are in Proofs/Pep440PatternFacts.v; this file only restates them. *)
+From Coq Require Import List Bool NArith Arith.
+From BV Require Import Lib.PyStr Gen.Tables Model.V2 Proofs.Pep440PatternFacts.
 Import ListNotations.
-Example C15_default_pattern : convert_to_pep440 [118;89;89;89;89;48;77;46;66;85;73;76;68;91;45;84;65;71;93]%N
-  = [89;89;89;89;48;77;46;66;76;68;91;80;89;84;65;71;78;85;77;93]%N.   (* vYYYY0M.BUILD[-TAG] -> YYYY0M.BLD[PYTAGNUM] *)
-Proof. vm_compute. reflexivity. Qed.
-Print Assumptions C15_default_pattern.
+Local Open Scope N_scope.
+
+(* 0W->WW 0U->UU 0V->VV 0M->MM 0D->DD 00J->JJJ BUILD->BLD TAG->PYTAG *)
+Theorem C15_repo_pep440_substitutions :
+  PEP440_PART_SUBSTITUTIONS =
+  [ ([48;87], [87;87]); ([48;85], [85;85]); ([48;86], [86;86]); ([48;77], [77;77]); ([48;68], [68;68]);
+    ([48;48;74], [74;74;74]); ([66;85;73;76;68], [66;76;68]); ([84;65;71], [80;89;84;65;71]) ].
+Proof. exact repo_pep440_substitutions. Qed.
+Print Assumptions C15_repo_pep440_substitutions.
+
+(* vYYYY0M.BUILD[-TAG]            ->  YYYY0M.BLD[PYTAGNUM]
+   YYYY.BUILD[-TAG]               ->  YYYY.BLD[PYTAGNUM]
+   vYYYY.0M.0D                    ->  YYYY.MM.DD[PYTAGNUM]
+   MAJOR.MINOR.PATCH[-TAG[NUM]]   ->  MAJOR.MINOR.PATCH[][PYTAGNUM]
+   vMAJOR.MINOR.PATCH[PYTAGNUM]   ->  MAJOR.MINOR.PATCH[PYTAGNUM]
+   YYYY.0W.PATCH[-TAGNUM]         ->  YYYY.WW.PATCH[PYTAGNUM]
+   vYY.0M.BUILD                   ->  YY.MM.BLD[PYTAGNUM] *)
+Theorem C15_readme_conversions :
+  map convert_to_pep440
+    [ [118;89;89;89;89;48;77;46;66;85;73;76;68;91;45;84;65;71;93];
+      [89;89;89;89;46;66;85;73;76;68;91;45;84;65;71;93];
+      [118;89;89;89;89;46;48;77;46;48;68];
+      [77;65;74;79;82;46;77;73;78;79;82;46;80;65;84;67;72;91;45;84;65;71;91;78;85;77;93;93];
+      [118;77;65;74;79;82;46;77;73;78;79;82;46;80;65;84;67;72;91;80;89;84;65;71;78;85;77;93];
+      [89;89;89;89;46;48;87;46;80;65;84;67;72;91;45;84;65;71;78;85;77;93];
+      [118;89;89;46;48;77;46;66;85;73;76;68] ]
+  = [ [89;89;89;89;48;77;46;66;76;68;91;80;89;84;65;71;78;85;77;93];
+      [89;89;89;89;46;66;76;68;91;80;89;84;65;71;78;85;77;93];
+      [89;89;89;89;46;77;77;46;68;68;91;80;89;84;65;71;78;85;77;93];
+      [77;65;74;79;82;46;77;73;78;79;82;46;80;65;84;67;72;91;93;91;80;89;84;65;71;78;85;77;93];
+      [77;65;74;79;82;46;77;73;78;79;82;46;80;65;84;67;72;91;80;89;84;65;71;78;85;77;93];
+      [89;89;89;89;46;87;87;46;80;65;84;67;72;91;80;89;84;65;71;78;85;77;93];
+      [89;89;46;77;77;46;66;76;68;91;80;89;84;65;71;78;85;77;93] ].
+Proof. exact readme_conversions. Qed.
+Print Assumptions C15_readme_conversions.
+
+Theorem C15_convert_drops_v_prefix : forall p, prefixb [118] p = false ->
+  convert_to_pep440 (118 :: p) = convert_to_pep440 p.
+Proof. exact convert_drops_v_prefix. Qed.
+Print Assumptions C15_convert_drops_v_prefix.
+
+(* why the side condition is needed: vvYYYY -> vYYYY[PYTAGNUM] but vYYYY -> YYYY[PYTAGNUM] *)
+Example C15_convert_vv_counterexample :
+  convert_to_pep440 [118; 118; 89; 89; 89; 89] = [118; 89; 89; 89; 89; 91; 80; 89; 84; 65; 71; 78; 85; 77; 93]
+  /\ convert_to_pep440 [118; 89; 89; 89; 89] = [89; 89; 89; 89; 91; 80; 89; 84; 65; 71; 78; 85; 77; 93].
+Proof. exact convert_vv_counterexample. Qed.
+Print Assumptions C15_convert_vv_counterexample.
+
+Theorem C15_convert_ends_with_pytagnum : forall p, str_in s_PYTAGNUM (convert_to_pep440 p) = true.
+Proof. exact convert_ends_with_pytagnum. Qed.
+Print Assumptions C15_convert_ends_with_pytagnum.
+
+Theorem C15_convert_appends_pytagnum : forall p,
+  let p4 := pep440_names_pass p (filter pep440_keep (sreplace [92; 93] [] (sreplace [92; 91] [] (strip_v p)))) in
+  str_in s_PYTAGNUM p4 = false ->
+  exists q, convert_to_pep440 p = q ++ [91] ++ s_PYTAGNUM ++ [93].
+Proof. exact convert_appends_pytagnum. Qed.
+Print Assumptions C15_convert_appends_pytagnum.
+
+Theorem C15_pytag_tables_inverse :
+  forallb (fun '(tag, pytag) =>
+             match assoc pytag TAG_BY_PEP440_TAG with
+             | Some t => match assoc t PEP440_TAG_BY_TAG with Some p => eqb_str p pytag | None => false end
+             | None => false
+             end) PEP440_TAG_BY_TAG = true.
+Proof. exact pytag_tables_inverse. Qed.
+Print Assumptions C15_pytag_tables_inverse.
